@@ -39,7 +39,23 @@ type resReplay struct {
 	Ops      []resOp `json:"ops"`
 }
 
-func dynResType(k int) reflect.Type { return reflect.ArrayOf(40000+k, reflect.TypeOf(byte(0))) }
+// dynResType: distinct Go types that are related to each other and to the static types the way real
+// resource types can be (a type and the pointer to it, a slice of it, a struct wrapping it): every
+// distinct Go type is its own resource type.
+func dynResType(k int) reflect.Type {
+	switch k {
+	case 0:
+		return reflect.PointerTo(reflect.TypeOf(resA{}))
+	case 1:
+		return reflect.SliceOf(reflect.TypeOf(resB{}))
+	case 2:
+		return reflect.StructOf([]reflect.StructField{{Name: "V", Type: reflect.TypeOf(int(0))}}) // same layout as resA
+	}
+	if k%2 == 1 {
+		return reflect.PointerTo(dynResType(k - 1))
+	}
+	return reflect.ArrayOf(40000+k, reflect.TypeOf(byte(0)))
+}
 
 // resWorld is world + model.
 type resWorld struct {
@@ -384,6 +400,21 @@ func (r *resWorld) apply(op resOp) string {
 		r.ents = nil
 		for k := range r.present {
 			r.present[k], r.ptr[k] = false, nil
+		}
+		// resource types stay registered under their IDs (asked by ID before any by-type lookup)
+		if got := len(ecs.ResourceIDs(r.w)); got != r.nReg {
+			return r.fail("after Reset ResourceIDs lists %d resource types, %d were registered", got, r.nReg)
+		}
+		for i := len(r.types) - 1; i >= 0; i-- {
+			if r.types[i] == nil {
+				continue
+			}
+			if tp, ok := ecs.ResourceType(r.w, r.ids[i]); !ok || tp != r.types[i] {
+				return r.fail("after Reset ResourceType(%v) = %v,%v, registered type %v", r.ids[i], tp, ok, r.types[i])
+			}
+			if id := ecs.ResourceTypeID(r.w, r.types[i]); id != r.ids[i] {
+				return r.fail("after Reset ResourceTypeID(%v) = %v, it was registered as %v", r.types[i], id, r.ids[i])
+			}
 		}
 	}
 	return ""
